@@ -143,9 +143,26 @@ func DistMatrix(al align.Alignment, weights []float64, model DistModel, range1Mi
 		outmatrix[i] = make([]float64, al.NbSequences())
 	}
 
+	// The producer and the workers report errors through setErr only:
+	// the first one is kept, and err is read once all of them are done
+	var errmux sync.Mutex
+	setErr := func(e error) {
+		errmux.Lock()
+		if err == nil {
+			err = e
+		}
+		errmux.Unlock()
+	}
+
 	go func() {
 		defer close(distchan)
 		var seq1, seq2 []uint8
+		var err error
+		defer func() {
+			if err != nil {
+				setErr(err)
+			}
+		}()
 		if range1Min >= 0 && range1Max >= 0 && range2Min >= 0 && range2Max >= 0 {
 			if range1Max >= al.NbSequences() {
 				range1Max = al.NbSequences() - 1
@@ -189,24 +206,30 @@ func DistMatrix(al align.Alignment, weights []float64, model DistModel, range1Mi
 			}
 		}
 	}()
-	if err != nil {
-		return
-	}
 
 	var wg sync.WaitGroup
 	max := 0.0
 	for cpu := 0; cpu < cpus; cpu++ {
 		wg.Add(1)
 		go func() {
+			defer wg.Done()
+			var err error
 			for sp := range distchan {
 				if sp.i == sp.j {
 					outmatrix[sp.i][sp.i] = 0
 				} else {
-					if outmatrix[sp.i][sp.j], err = model.Distance(sp.seq1, sp.seq2, sp.weights); err != nil {
+					var d float64
+					if d, err = model.Distance(sp.seq1, sp.seq2, sp.weights); err != nil {
+						setErr(err)
+						// the remaining pairs are consumed so that the producer can terminate
+						for range distchan {
+						}
 						return
 					}
-					outmatrix[sp.j][sp.i] = outmatrix[sp.i][sp.j]
+					// overlapping ranges give both (i,j) and (j,i): the matrix is written under the lock
 					mux.Lock()
+					outmatrix[sp.i][sp.j] = d
+					outmatrix[sp.j][sp.i] = d
 					if outmatrix[sp.i][sp.j] < 0 || outmatrix[sp.i][sp.j] == math.Inf(1) || outmatrix[sp.i][sp.j] > NT_DIST_OVER {
 						uncompute = append(uncompute, seqpairdist{sp.i, sp.j, nil, nil, nil, nil})
 					} else if outmatrix[sp.i][sp.j] > max {
@@ -215,7 +238,6 @@ func DistMatrix(al align.Alignment, weights []float64, model DistModel, range1Mi
 					mux.Unlock()
 				}
 			}
-			wg.Done()
 		}()
 	}
 	wg.Wait()
